@@ -73,6 +73,8 @@ CONFIGS = {
 }
 BOUNDARY_VALUES = ("0", "-1", "1", "+1", "x")
 CHUNK = 40
+# runs of this check cost 30-800 ms each: smaller determinism sample
+SELFTEST_N = {"quick": 10, "thorough": 60}
 # C18 says nothing about running time, and a mutated number can make a
 # formula legitimately huge: a run that exceeds the limit is abandoned and
 # recorded as a note (a genuine hang would show up as a pile of such notes).
